@@ -25,6 +25,10 @@ Requests (reply: impl-result TAB spec-on-go TAB spec-on-impl TAB guard-ids):
                         GO = panic | error | (ok (st V*) (l O*))   received values, returned objects
   reuse HIST N GO       one VM, the supplies HIST = (h (NAME T V)*) in the order they were made,
                         then a run that reads global NAME = N;  GO = panic | error | (ok O)
+  seq MODE T OS GO      a series of objects OS = (l O*) written, one after the other, through the ONE
+                        converter of T into fresh slots;  GO = (seq R*), R = panic | error | (ok V)
+  callseq T OS GO       a series of calls of one method `func (h *Host) E(x T) T`, one per object of
+                        OS = (l O*);  GO = (seq R*), R = panic | error | (ok V O)
   hist ROOTS HEAP OPS GO   a history over an object graph (Heap.lean).
                         ROOTS = (roots A*)  the object each global name g0, g1, … stands for
                         HEAP  = (heap NODE*), NODE = (i N) | (r A) | (r -) | (st NODE*) | (seq NODE*)
@@ -310,6 +314,31 @@ def pBindings : Nat → P (List Binding)
     some ((name, t, v) :: bs, r)
   | _, _ => none
 
+/-- `(seq R*)` -/
+def pOutcomes {α} (p : Nat → P α) : Nat → P (List (Outcome α))
+  | 0, _ => none
+  | _ + 1, ")" :: r => some ([], r)
+  | n + 1, r => do let (x, r) ← pOutcome p n r; let (xs, r) ← pOutcomes p n r; some (x :: xs, r)
+
+def pSeq {α} (p : Nat → P α) : Nat → P (List (Outcome α))
+  | n, "(" :: "seq" :: r => pOutcomes p n r
+  | _, _ => none
+
+def objsToList : Objs → List Obj
+  | .nil => []
+  | .cons o r => o :: objsToList r
+
+def showSeq {α} (f : α → String) (rs : List (Outcome α)) : String :=
+  "(seq" ++ rs.foldl (fun s r => s ++ " " ++ showOutcome f r) "" ++ ")"
+
+def specCallSeq (F : FOps) (pt : GoTy) : List Obj → List (Outcome (GoVal × Obj)) → Bool
+  | [], [] => true
+  | o :: os, r :: rs => (match r with
+      | .panic => false
+      | .error => true
+      | .ok (x, res) => repr F pt x o && repr F pt x res) && specCallSeq F pt os rs
+  | _, _ => false
+
 def pHist : Nat → P (List Binding)
   | n, "(" :: "h" :: r => pBindings n r
   | _, _ => none
@@ -324,7 +353,7 @@ def specCallN (F : FOps) (pts : Fields) (os : Objs) (res : Outcome (Vals × Objs
   | .ok (xs, rs) => reprArgs F pts xs os && reprArgs F pts xs rs
 
 def retGuards : Fields → Vals → List Finding
-  | .cons t ts, .cons x xs => crossGuards .get t x ++ retGuards ts xs
+  | .cons t ts, .cons x xs => readGuards .get t x ++ retGuards ts xs
   | _, _ => []
 
 def showRt (r : Outcome (Obj × Outcome GoVal)) : String :=
@@ -579,7 +608,7 @@ def handle : List String → String
     | some ty, some v, some go =>
       let impl := evalGlobal nativeF (some (ty, v))
       reply (showOutcome showObj impl) (specRead nativeF ty v go) (specRead nativeF ty v impl)
-        (crossGuards .create ty v)
+        (readGuards .create ty v)
     | _, _, _ => "error\tbad-request"
   | ["retry", ty, v, i, go] =>
     -- second conversion of a struct whose first registration failed, then a field read
@@ -607,7 +636,7 @@ def handle : List String → String
           let cty := fieldConvTy ft
           let cv := if isStructKind ft then GoVal.ptr x else x
           reply (showOutcome showObj impl) (specRead nativeF cty cv go) (specRead nativeF cty cv impl)
-            (crossGuards .get cty cv)
+            (readGuards .get cty cv)
         | none => "error\tbad-field"
       | _, _ => reply (showOutcome showObj impl) (decide (go ≠ .panic)) (decide (impl ≠ .panic)) [.proxyType]
     | _, _, _, _ => "error\tbad-request"
@@ -619,7 +648,7 @@ def handle : List String → String
       | some ft =>
         let rdGuards := match impl with
           | .ok (.ptr (.struct xs'), _) => match xs'.nth i with
-            | some x => crossGuards .get (fieldConvTy ft) (if isStructKind ft then .ptr x else x)
+            | some x => readGuards .get (fieldConvTy ft) (if isStructKind ft then .ptr x else x)
             | none => []
           | _ => []
         reply (showSet impl) (specSet nativeF pv i ft o go) (specSet nativeF pv i ft o impl)
@@ -631,7 +660,7 @@ def handle : List String → String
     | some pt, some o, some go =>
       let impl := callEcho nativeF pt o
       let rdGuards := match impl with
-        | .ok (x, _) => crossGuards .get pt x
+        | .ok (x, _) => readGuards .get pt x
         | _ => []
       reply (showCall impl) (specCall nativeF pt o go) (specCall nativeF pt o impl)
         (callGuards nativeF pt o ++ rdGuards)
@@ -646,13 +675,32 @@ def handle : List String → String
       reply (showCallN impl) (specCallN nativeF pts os go) (specCallN nativeF pts os impl)
         (callNGuards nativeF pts os ++ rdGuards)
     | _, _, _ => "error\tbad-request"
+  | ["seq", m, ty, os, go] =>
+    match pMode m, parseAll pTy ty, parseAll pObj os, parseAll (pSeq pVal) go with
+    | some m, some ty, some (.list os), some go =>
+      let os := objsToList os
+      let impl := toSlotSeq nativeF m ty os
+      reply (showSeq showVal impl) (specWriteSeq nativeF ty os go) (specWriteSeq nativeF ty os impl)
+        (os.map (writeAllGuards nativeF m ty)).flatten
+    | _, _, _, _ => "error\tbad-request"
+  | ["callseq", pt, os, go] =>
+    match parseAll pTy pt, parseAll pObj os, parseAll (pSeq pCallPayload) go with
+    | some pt, some (.list os), some go =>
+      let os := objsToList os
+      let impl := callSeq nativeF pt os
+      let rdGuards := (impl.map fun r => match r with
+        | .ok (x, _) => readGuards .get pt x
+        | _ => []).flatten
+      reply (showSeq (fun p => showVal p.1 ++ " " ++ showObj p.2) impl) (specCallSeq nativeF pt os go)
+        (specCallSeq nativeF pt os impl) ((os.map (callGuards nativeF pt)).flatten ++ rdGuards)
+    | _, _, _ => "error\tbad-request"
   | ["reuse", hist, n, go] =>
     match parseAll pHist hist, n.toNat?, parseAll (pOutcome pObj) go with
     | some hist, some n, some go =>
       let hist := hist.reverse            -- the model takes the latest supply first
       let impl := reuseRead nativeF hist n
       let own := match lastSupplied n hist with
-        | some (ty, v) => crossGuards .create ty v
+        | some (ty, v) => readGuards .create ty v
         | none => []
       reply (showOutcome showObj impl) (specReuse nativeF hist n go) (specReuse nativeF hist n impl)
         (own ++ heldGuards (held hist)) ++ "\t" ++
